@@ -4,9 +4,11 @@ import (
 	"encoding/hex"
 	"fmt"
 	"math"
+	"reflect"
 	"sort"
 
 	"github.com/DDP-Projekt/Kompilierer/src/ast"
+	"github.com/DDP-Projekt/Kompilierer/src/token"
 )
 
 // literal values as the parser stored them in the AST, in visiting order
@@ -94,6 +96,94 @@ func (v *callVisitor) VisitFuncCall(e *ast.FuncCall) ast.VisitResult {
 func init() {
 	dumpers["calls"] = func(m *ast.Module, dir string) []string {
 		v := &callVisitor{}
+		ast.VisitModule(m, v)
+		return v.out
+	}
+}
+
+// every composite expression with its own source range and the ranges of its operands
+type rangeVisitor struct{ out []string }
+
+func rg(r token.Range) string {
+	return fmt.Sprintf("%d:%d-%d:%d", r.Start.Line, r.Start.Column, r.End.Line, r.End.Column)
+}
+
+func (v *rangeVisitor) node(kind string, own token.Range, kids ...ast.Expression) ast.VisitResult {
+	s := kind + " " + rg(own)
+	for _, k := range kids {
+		if k == nil || reflect.ValueOf(k).IsNil() {
+			continue
+		}
+		s += " " + rg(k.GetRange())
+	}
+	v.out = append(v.out, s)
+	return ast.VisitRecurse
+}
+
+func (*rangeVisitor) Visitor() {}
+func (v *rangeVisitor) VisitUnaryExpr(e *ast.UnaryExpr) ast.VisitResult {
+	return v.node(fmt.Sprintf("unary:%s", e.Operator), e.Range, e.Rhs)
+}
+func (v *rangeVisitor) VisitBinaryExpr(e *ast.BinaryExpr) ast.VisitResult {
+	return v.node(fmt.Sprintf("binary:%s", e.Operator), e.Range, e.Lhs, e.Rhs)
+}
+func (v *rangeVisitor) VisitTernaryExpr(e *ast.TernaryExpr) ast.VisitResult {
+	return v.node(fmt.Sprintf("ternary:%s", e.Operator), e.Range, e.Lhs, e.Mid, e.Rhs)
+}
+func (v *rangeVisitor) VisitCastExpr(e *ast.CastExpr) ast.VisitResult {
+	return v.node("cast", e.Range, e.Lhs)
+}
+func (v *rangeVisitor) VisitCastAssigneable(e *ast.CastAssigneable) ast.VisitResult {
+	return v.node("cast-assignable", e.Range, e.Lhs)
+}
+func (v *rangeVisitor) VisitTypeCheck(e *ast.TypeCheck) ast.VisitResult {
+	return v.node("typecheck", e.Range, e.Lhs)
+}
+func (v *rangeVisitor) VisitTypeOpExpr(e *ast.TypeOpExpr) ast.VisitResult {
+	return v.node(fmt.Sprintf("typeop:%s", e.Operator), e.Range)
+}
+func (v *rangeVisitor) VisitGrouping(e *ast.Grouping) ast.VisitResult {
+	return v.node("grouping", e.Range, e.Expr)
+}
+func (v *rangeVisitor) VisitIndexing(e *ast.Indexing) ast.VisitResult {
+	return v.node("indexing", e.GetRange(), e.Lhs, e.Index)
+}
+func (v *rangeVisitor) VisitFieldAccess(e *ast.FieldAccess) ast.VisitResult {
+	return v.node("field", e.GetRange(), e.Rhs, e.Field)
+}
+func (v *rangeVisitor) VisitListLit(e *ast.ListLit) ast.VisitResult {
+	kids := append([]ast.Expression{}, e.Values...)
+	kids = append(kids, e.Count, e.Value)
+	return v.node("list", e.Range, kids...)
+}
+func (v *rangeVisitor) VisitFuncCall(e *ast.FuncCall) ast.VisitResult {
+	names := make([]string, 0, len(e.Args))
+	for n := range e.Args {
+		names = append(names, n)
+	}
+	sort.Strings(names)
+	kids := []ast.Expression{}
+	for _, n := range names {
+		kids = append(kids, e.Args[n])
+	}
+	return v.node("call:"+e.Name, e.Range, kids...)
+}
+func (v *rangeVisitor) VisitStructLiteral(e *ast.StructLiteral) ast.VisitResult {
+	names := make([]string, 0, len(e.Args))
+	for n := range e.Args {
+		names = append(names, n)
+	}
+	sort.Strings(names)
+	kids := []ast.Expression{}
+	for _, n := range names {
+		kids = append(kids, e.Args[n])
+	}
+	return v.node("struct", e.Range, kids...)
+}
+
+func init() {
+	dumpers["ranges"] = func(m *ast.Module, dir string) []string {
+		v := &rangeVisitor{}
 		ast.VisitModule(m, v)
 		return v.out
 	}
